@@ -74,16 +74,31 @@ def norm_region(r):
     return ("circ", float(r[1]), float(r[2]), float(r[3]), r[4])
 
 
+def as_given(v):
+    """Value-preserving re-typing of a region number, the way a JSON client may send it: "110.5", 110 or "110" for 110.0.
+    Chosen from the value itself, so that a replayed case sees the same types."""
+    if not isinstance(v, float) or not math.isfinite(v):
+        return v
+    k = int(abs(v) * 10) % 7
+    if k == 3:
+        return repr(v)
+    if k == 5 and v == int(v):
+        return int(v)
+    if k == 6 and v == int(v):
+        return "%d" % v
+    return v
+
+
 def make_region(r):
     if r[0] == "rect":
-        return RectangularRegion(x1=r[1], y1=r[2], x2=r[3], y2=r[4], id=r[5])
-    return CircularRegion(cx=r[1], cy=r[2], r=r[3], id=r[4])
+        return RectangularRegion(x1=as_given(r[1]), y1=as_given(r[2]), x2=as_given(r[3]), y2=as_given(r[4]), id=r[5])
+    return CircularRegion(cx=as_given(r[1]), cy=as_given(r[2]), r=as_given(r[3]), id=r[4])
 
 
 def region_payload(r):
     if r[0] == "rect":
-        return dict(type="RectangularRegion", x1=r[1], y1=r[2], x2=r[3], y2=r[4], id=r[5])
-    return dict(type="CircularRegion", cx=r[1], cy=r[2], r=r[3], id=r[4])
+        return dict(type="RectangularRegion", x1=as_given(r[1]), y1=as_given(r[2]), x2=as_given(r[3]), y2=as_given(r[4]), id=r[5])
+    return dict(type="CircularRegion", cx=as_given(r[1]), cy=as_given(r[2]), r=as_given(r[3]), id=r[4])
 
 
 def depth_in(regions, x, y):
